@@ -43,11 +43,20 @@ class Pred:
         return 'pred_' + self.name
 
 
+class PredicateRefused(Exception):
+    pass
+
+
 def pred_impl(name, t):
     if name == 'pos':
         return isinstance(t, int) and t > 0
     if name == 'raises':
         raise ValueError('predicate raised')
+    if name == 'asserts':
+        assert isinstance(t, str), 'assert-style validator'       # AssertionError for non-strings: a rejection like any other exception
+        return True
+    if name == 'raises-own':
+        raise PredicateRefused('a user-defined exception class')
     if name == 'none':
         return None
     if name == 'true':
@@ -372,7 +381,7 @@ def atoms(mode):
         out += [['conv', 'str'], ['conv', 'bool']]
     if mode == 'match':
         out += [['type', 'int'], ['type', 'str'], ['type', 'dict'], ['lit', 3], ['lit', 'a'],
-                ['pred', 'pos'], ['pred', 'raises'], ['pred', 'none'], ['pred', 'true']]
+                ['pred', 'pos'], ['pred', 'raises'], ['pred', 'none'], ['pred', 'true'], ['pred', 'asserts'], ['pred', 'raises-own']]
     return out
 
 
